@@ -71,41 +71,37 @@ PROVED: from a structurally valid state — ordered list, nested lists holding a
 tree naming its container, every dropped object naming nothing — EVERY operation (insertRule at any index, add,
 deleteRule, encoding, cssText of the sheet, namespaces[p]=u, del namespaces[p], and insertRule / deleteRule / cssText on
 the nested list at any path; string or object argument; raise or log-only mode; accepted, refused or interrupted)
-leads to a valid state, provided the operation is outside `Region` (the five regions of the listed known findings,
+leads to a valid state, provided the operation is outside `Region` (the four regions of the listed known findings,
 each a decidable predicate on state and operation) and rule objects handed in are themselves well nested (`OpOK`). -/
 theorem step_valid_partial (st : St) (op : Op) (hv : Valid st) (hs : OpOK op) (hr : ¬ Region st op) :
     Valid (step st op).1 := by
   have hord : ¬ OrderRegion st op := fun h => hr (Or.inl h)
   have hadopt : ¬ AdoptRegion st op := fun h => hr (Or.inr (Or.inl h))
-  have hclean : ¬ CleanRegion st op := fun h => hr (Or.inr (Or.inr (Or.inl h)))
-  have hnest : ¬ NestedRegion st op := fun h => hr (Or.inr (Or.inr (Or.inr (Or.inl h))))
-  have hrepl : ¬ ReplaceRegion st op := fun h => hr (Or.inr (Or.inr (Or.inr (Or.inr h))))
+  have hnest : ¬ NestedRegion st op := fun h => hr (Or.inr (Or.inr (Or.inl h)))
+  have hrepl : ¬ ReplaceRegion st op := fun h => hr (Or.inr (Or.inr (Or.inr h)))
   have htop := step_order_partial st op hv.top hord
-  have hinv : Inv st := ⟨hv.kids, hv.links, hv.gone⟩
-  suffices h : Inv (step st op).1 from ⟨htop, h.kids, h.links, h.gone⟩
+  have hinv : Inv st := ⟨hv.kids, hv.links, hv.gone, hv.ids⟩
+  suffices h : Inv (step st op).1 from ⟨htop, h.kids, h.links, h.gone, h.ids⟩
   cases op with
   | insert s i v =>
-    apply insertRule_inv st s i false v _ hinv (by
+    exact insertRule_inv st s i false v _ hinv (by
       rcases hs with hs | hs
       · exact Or.inl hs
       · exact Or.inr hs) (by simp)
-    exact hclean
   | add s v =>
     apply insertRule_inv st s none true v _ hinv (by
       rcases hs with hs | hs
       · exact Or.inl hs
       · exact Or.inr hs)
-    · intro ⟨_, hv', hk, _, hf, _⟩
-      exact hadopt ⟨hv', hk, hf⟩
-    · exact hclean
+    intro ⟨_, hv', hk, _, hf, _⟩
+    exact hadopt ⟨hv', hk, hf⟩
   | insertOrdered s i v =>
     apply insertRule_inv st s (some i) true v _ hinv (by
       rcases hs with hs | hs
       · exact Or.inl hs
       · exact Or.inr hs)
-    · intro ⟨_, hv', hk, _, hf, hi⟩
-      exact hadopt ⟨hv', hk, hf, hi⟩
-    · exact hclean
+    intro ⟨_, hv', hk, _, hf, hi⟩
+    exact hadopt ⟨hv', hk, hf, hi⟩
   | delete i => exact deleteRule_inv st i hinv
   | setEncoding e v => exact setEncoding_inv st e v hinv
   | setText specs =>
@@ -116,7 +112,7 @@ theorem step_valid_partial (st : St) (op : Op) (hv : Valid st) (hs : OpOK op) (h
     cases hr' : st.rules with
     | nil => exact absurd hr' hne
     | cons a t => rfl
-  | nsSet p u => exact nsSet_inv st p u hinv hclean
+  | nsSet p u => exact nsSet_inv st p u hinv
   | nsDel p => exact nsDel_inv st p hinv
   | nInsert path s i v =>
     apply nInsert_inv st path s i v hinv (by
@@ -135,7 +131,7 @@ theorem step_valid_partial (st : St) (op : Op) (hv : Valid st) (hs : OpOK op) (h
     intro c hc hcont hk hnone
     apply hrepl
     simp [ReplaceRegion, replaceRegionB, hc, hcont, hk, hnone]
-  | setMode b => exact ⟨hinv.kids, hinv.links, hinv.gone⟩
+  | setMode b => exact ⟨hinv.kids, hinv.links, hinv.gone, hinv.ids⟩
 
 /-! machine-checked witnesses of the other findings: each history starts at the empty sheet, stays valid up to the last
 operation, and the last operation (inside the region) produces an invalid state. The harness replays the same
@@ -148,12 +144,14 @@ theorem valid_breaks_add_charset :
     Valid st ∧ ¬ Valid (step st (.add (charsetS 0x62) false)).1 := by
   simp only [← validB_iff]; decide
 
-/-- C09-clean-refused-halfway: `@namespace p "a"; p|x{}` then `insertRule(@namespace p "b", 0)`: raises
-NoModificationAllowedErr, the new rule is in the list and names no sheet -/
-theorem valid_breaks_clean_refused :
+/-- (fixed in the code by 3ec898a, formerly C09-clean-refused-halfway) `@namespace p "a"; p|x{}` then
+`insertRule(@namespace p "b", 0)`: raises NoModificationAllowedErr and leaves a valid sheet of the same length —
+an instance of `step_valid_partial`, kept as a regression witness -/
+theorem valid_after_clean_refused :
     let st := run St.empty [.add (nsS 0x70 0x61) false, .add (styleUsing 0x61) false]
-    Valid st ∧ (step st (.insert (nsS 0x70 0x62) (some 0) false)).2 = .err .noMod ∧
-      ¬ Valid (step st (.insert (nsS 0x70 0x62) (some 0) false)).1 := by
+    (step st (.insert (nsS 0x70 0x62) (some 0) false)).2 = .err .noMod ∧
+      Valid (step st (.insert (nsS 0x70 0x62) (some 0) false)).1 ∧
+      (step st (.insert (nsS 0x70 0x62) (some 0) false)).1.rules.length = 2 := by
   simp only [← validB_iff]; decide
 
 /-- C09-media-accepts-variables -/
@@ -207,7 +205,7 @@ theorem parentStyleSheet_depth2_none :
 
 /-- the empty sheet is valid -/
 theorem empty_valid (raising : Bool) : Valid (St.empty raising) := by
-  refine ⟨topOK_nil, ?_, ?_, ?_⟩ <;> intro r hr <;> cases hr
+  refine ⟨topOK_nil, ?_, ?_, ?_, ?_⟩ <;> intro r hr <;> cases hr
 
 /-- **T9.2** every state reached from a valid state (in particular from the empty sheet, or from any parsed sheet: a
 parse is the operation `setText` on the empty sheet) by a history of ANY length that stays outside the regions of the
